@@ -387,7 +387,7 @@ int c16_assembly_main(int argc, char** argv, const char* harness_name)
     "rule; force and Laplace functionals on three routes; symbolic patterns (std == coupling set from the dof mappings, ext_facet/ext_node supersets, "
     "diag). Non-trivial: every case (hashed by shape, pair, mesh spec).";
   spec.bounds_quick = "this binary: tria/quad (c16_assembly) resp. tetra/hexa (c16_assembly3d); 8 element pairs (+ Lagrange-3 in 2D); ~25 meshes per shape up to 16 (2D) / 8 (3D) cells";
-  spec.bounds_thorough = "more local numberings, refinement level 3 (2D) / 2 (3D), geometry affine*nonaffine";
+  spec.bounds_thorough = "3D: more local numberings, unit cube refinement level 2, geometry affine*nonaffine (2D already uses the full family in the quick tier: levels 1-3)";
   spec.assumptions = {
     "oracle integrates polynomials only: the test vectors are interpolants of monomials contained in the spaces on every cell (P_k); directions of the "
     "coefficient space that are not global polynomials are covered by the route agreement, symmetry, kernel and pattern checks, not by the integral oracle",
